@@ -44,6 +44,14 @@ CHECKS = {
          "deterministic simulation on a simulated clock: real RetentionScanner (DoScan and the Start/Join loop) over both real stores, racing deliveries/removals at seeded simulated instants, cancellation at a seeded instant; recording Store wrapper gives scan windows and removals for the oracle",
          "Seeded search over age distributions around the cutoff (+-1ns, +-1s, ...), periods, sleeps, back-ends, racers and cancellation times; hours of simulated time per run cost microseconds.",
          "Message dates are those passed to AddMessage. Young-message preservation is asserted for every scanner removal; completeness for scans that finished before cancellation."),
+ "C05": ("exploration", "DESIGN.md §4 C05",
+         "deterministic simulation: configuration injected through the real environment path (config.Process), real SMTP server on the simulated network, dialogues hitting and just missing every list entry in all letter cases; reply classes and stored mailboxes predicted by a reference policy model with its own wildcard matcher",
+         "Seeded search over the configuration space (switches, four lists, reject-origin patterns with * and ?, recipient limit) x sender/recipient domains x dialogue shapes. The decisions themselves are functions of (config, address): the simulator adds reach (whole configuration path, session-level recipient limit, every mailbox read back), not schedule power - stated here as the caveat of DESIGN §4.",
+         "Local naming; syntactically valid addresses. Trusted: reference policy model written from doc/config.md and the property text."),
+ "C06": ("exploration", "DESIGN.md §4 C06",
+         "deterministic simulation: SMTP DATA with sizes around a per-run limit, SIZE parameter absent/truthful/understated/overstated, seeded segmentation and buffers; refuse/accept oracle with a slack band, session reuse, store read back",
+         "Seeded search over limits x sizes on both sides of the limit x SIZE parameter variants x connection segmentation; bodies are streamed through small simulated buffers so the server's read loop runs through its refill path.",
+         "Sizes within 512 bytes of the limit are unconstrained (what 'size' counts is not fixed by the statement)."),
 }
 
 NOT_YET = "check under construction in this session; not claimed until it runs clean on the unchanged tree"
